@@ -7,6 +7,9 @@
         and <prefix>.out (bytes produced by the C encoder); runs the encoder MODEL over the trace (which also checks that the
         trace describes the data) and compares its bytes with the C bytes:
           "ok bytes=<n> nsyms=<k> consumed=<c>"  |  "MISMATCH at=<i> model_len=<a> c_len=<b>"  |  "DESCRIBES-FAIL <text>"
+    spec1 <lc> <lp> <pb> <dict> <prefix>
+        the SPECIFICATION encoder/decoder on which the theorems are stated (lists; small cases only): symbols of the trace ->
+        `lzma1EncodeSpec` must equal the C bytes, `lzma1DecodeSpec` of the C bytes must give the data: "ok bytes=<n> nsyms=<k>"
     dec1 <lc> <lp> <pb> <dict> <prefix>   /  dec2 <dict> <prefix>
         decodes <prefix>.out with the decoder MODEL of b-c03 (raw LZMA1 with end marker / raw LZMA2) and compares with <prefix>.in:
           "ok n=<len>"  |  "DECODE-FAIL ret=<r> n=<len> first_diff=<i>"
@@ -17,7 +20,26 @@
 import XzVerif.Model.Proto
 import XzVerif.Model.Lzma2Enc
 import XzVerif.Model.Lzma2
-open XzVerif XzVerif.Proto XzVerif.RangeEnc XzVerif.LzmaEnc XzVerif.Lzma2Enc
+import XzVerif.Model.LzmaSpec
+open XzVerif XzVerif.Proto XzVerif.RangeEnc XzVerif.LzmaEnc XzVerif.Lzma2Enc XzVerif.LzmaSpec
+
+/-- the symbol list of an LZMA1 trace (first literal of `encode_init` included), checked against the data -/
+def traceSyms (dictSize : Nat) (buf : ByteArray) (base : Nat) (trace : Array TraceRec) : Except String (List Sym) := do
+  let mut st : SymSt := {}
+  let mut off := 0
+  let mut syms : Array Sym := #[]
+  if base == 0 && buf.size > 0 then
+    let sym := Sym.lit (buf.get! 0)
+    syms := syms.push sym
+    st := st.next sym
+    off := 1
+  for r in trace do
+    if r.kind != 0 then throw "unexpected trace record kind"
+    let (sym, _, _) ← checkSym dictSize buf base off st r.back r.len
+    syms := syms.push sym
+    st := st.next sym
+    off := off + r.len
+  return syms.toList
 
 def rd32 (b : ByteArray) (i : Nat) : Nat :=
   (b.get! i).toNat + 256 * (b.get! (i + 1)).toNat + 65536 * (b.get! (i + 2)).toNat + 16777216 * (b.get! (i + 3)).toNat
@@ -90,6 +112,29 @@ def step (ws : List String) : IO String := do
       let cOut ← IO.FS.readBinFile (prefix_ ++ ".out")
       let r := lzma2Encode { lc := lc, lp := lp, pb := pb } dict (pd ++ data) pd.size (parseTrace tr)
       pure (compareOut r cOut none)
+    | _, _, _, _ => pure "bad-op"
+  | ["spec1", lc, lp, pb, dict, prefix_] =>
+    match lc.toNat?, lp.toNat?, pb.toNat?, dict.toNat? with
+    | some lc, some lp, some pb, some dict =>
+      let data ← IO.FS.readBinFile (prefix_ ++ ".in")
+      let tr ← IO.FS.readBinFile (prefix_ ++ ".trace")
+      let pd ← readOpt (prefix_ ++ ".pd")
+      let cOut ← IO.FS.readBinFile (prefix_ ++ ".out")
+      let p : Lzma.Props := { lc := lc, lp := lp, pb := pb }
+      match traceSyms dict (pd ++ data) pd.size (parseTrace tr) with
+      | .error msg => pure s!"DESCRIBES-FAIL {msg}"
+      | .ok syms =>
+        match lzma1EncodeSpec p dict pd.toList syms with
+        | none => pure "SPEC-FAIL the specification encoder rejects the traced symbols"
+        | some bytes =>
+          if !(bytes.length == cOut.size && firstDiff bytes cOut == cOut.size) then
+            pure s!"MISMATCH at={firstDiff bytes cOut} model_len={bytes.length} c_len={cOut.size}"
+          else
+            match lzma1DecodeSpec p dict pd.toList (syms.length + 1) cOut.toList with
+            | some (out, []) =>
+              if out.length == data.size && firstDiff out data == data.size then pure s!"ok bytes={bytes.length} nsyms={syms.length}"
+              else pure s!"SPEC-DECODE-FAIL first_diff={firstDiff out data}"
+            | _ => pure "SPEC-DECODE-FAIL no result"
     | _, _, _, _ => pure "bad-op"
   | ["dec1", lc, lp, pb, dict, prefix_] =>
     match lc.toNat?, lp.toNat?, pb.toNat?, dict.toNat? with
